@@ -2,7 +2,7 @@
 # usage: tools/try_seeded.sh <patch.diff> <property id> [extra check args...]
 # Applies a seeded change to /repo, runs the property's check, and undoes the change.
 # Never leaves /repo modified. Exit code = exit code of the check.
-patch="$1"; prop="$2"; shift 2
+patch=$(readlink -f "$1"); prop="$2"; shift 2
 cd /repo || exit 2
 if [ -n "$(git status --porcelain)" ]; then echo "/repo is not clean" >&2; exit 2; fi
 git apply "$patch" || { echo "patch does not apply" >&2; exit 2; }
